@@ -586,6 +586,44 @@ func (w *World) equals(t types.Type, x, y Value) *Term {
 	panic(fmt.Sprintf("equals: unexpected %T", x))
 }
 
+// catEqPlain: a composite (byte-string parts followed by one final abstract
+// part) against a plain byte string, aligned left to right; nil = not decidable.
+func (w *World) catEqPlain(parts []Str, plain Str) *Term {
+	pb := w.strBytes(plain)
+	pos := 0
+	var conj []*Term
+	for i, p := range parts {
+		if p.cat != nil || p.opq {
+			return nil
+		}
+		if p.tok != nil {
+			if i != len(parts)-1 {
+				return nil
+			}
+			rest := Str{b: pb[pos:]}
+			if cs, ok := rest.Concrete(); ok {
+				rest = Str{s: cs}
+			} else if len(pb[pos:]) == 0 {
+				rest = Str{}
+			}
+			conj = append(conj, w.tokEq(p, rest))
+			return w.tt.And(conj...)
+		}
+		bs := w.strBytes(p)
+		if pos+len(bs) > len(pb) {
+			return w.tt.F
+		}
+		for k := range bs {
+			conj = append(conj, w.tt.Eq(bs[k], pb[pos+k]))
+		}
+		pos += len(bs)
+	}
+	if pos != len(pb) {
+		return w.tt.F
+	}
+	return w.tt.And(conj...)
+}
+
 func (w *World) strEq(x, y Str) *Term {
 	if x.cat != nil || y.cat != nil {
 		xp, yp := x.cat, y.cat
@@ -598,6 +636,13 @@ func (w *World) strEq(x, y Str) *Term {
 		if len(xp) != len(yp) {
 			// different shapes: a concrete/byte string against a composite with an abstract part
 			if (x.cat == nil && x.tok == nil && !x.opq) || (y.cat == nil && y.tok == nil && !y.opq) {
+				plain, parts := x, yp
+				if x.cat != nil {
+					plain, parts = y, xp
+				}
+				if r := w.catEqPlain(parts, plain); r != nil {
+					return r
+				}
 				panic(pathEnd{"unsupported", "comparison of a composite abstract string with a byte string"})
 			}
 			panic(pathEnd{"unsupported", "comparison of composite strings of different shape"})
